@@ -1362,6 +1362,11 @@ func (f *frame) noteAlloc(ref *Term) {
 		f.e.Defs.noteFunc(p, []*Sort{SRef}, SBool)
 		f.c.assume(Not(App(p, SBool, ref)))
 	}
+	for _, a := range f.c.allocs {
+		if a.String() != ref.String() {
+			f.c.assume(Not(Eq(ref, a))) // distinct allocation sites yield distinct objects
+		}
+	}
 	f.c.allocs = append(f.c.allocs, ref)
 }
 
